@@ -1,8 +1,546 @@
 package main
 
-import "golang.org/x/tools/go/ssa"
+// Level-K environment: string library over the SMT string theory, casing as
+// uninterpreted functions, gogoproto option readers answered from the option
+// record the harness built, gogo generator on a fixed universe, trace/logrus.
 
-// kIntrinsic holds the level-K environment stubs (filled in kstubs_*.go).
+import (
+	"fmt"
+	"go/types"
+	"strings"
+
+	"golang.org/x/tools/go/ssa"
+)
+
+const wsChars = " \t\n\r\v\f"
+
+func reOfSet(chars string) string {
+	var parts []string
+	for _, c := range []byte(chars) {
+		parts = append(parts, "(str.to_re "+smtString(string(c))+")")
+	}
+	if len(parts) == 1 {
+		return parts[0]
+	}
+	return "(re.union " + strings.Join(parts, " ") + ")"
+}
+
+// inSet: the one-character string x is a member of chars.
+func inSet(x *Term, chars string) *Term {
+	var ds []*Term
+	for _, c := range []byte(chars) {
+		ds = append(ds, Eq(x, StrC(string(c))))
+	}
+	return Or(ds...)
+}
+
+func (e *Engine) define(st *State, c *Term) { st.assumes = And(st.assumes, c) }
+
+func (e *Engine) freshStr(st *State, prefix string, max int64) *Term {
+	v := e.fresh(prefix, KStr, 0)
+	if max >= 0 {
+		v.Max = max
+		e.define(st, IntBin("<=", StrLen(v), IntC(max)))
+	}
+	return v
+}
+
+func strMaxOf(s *Term, dflt int) int64 {
+	if s.Max >= 0 {
+		return s.Max
+	}
+	return int64(dflt * 4)
+}
+
+// strTrim models strings.Trim(s, cutset) / TrimSpace for a constant cutset.
+func (e *Engine) strTrim(st *State, s *Term, cutset string, left, right bool) *Term {
+	if s.IsConst {
+		switch {
+		case left && right:
+			return StrC(strings.Trim(s.S, cutset))
+		case left:
+			return StrC(strings.TrimLeft(s.S, cutset))
+		default:
+			return StrC(strings.TrimRight(s.S, cutset))
+		}
+	}
+	e.needTheory("strings.Trim")
+	mx := strMaxOf(s, e.strMax)
+	r := e.freshStr(st, "trim", mx)
+	a, b := StrC(""), StrC("")
+	if left {
+		a = e.freshStr(st, "triml", mx)
+		e.define(st, mk(KBool, 0, "str.in_re", a, reTerm("(re.* "+reOfSet(cutset)+")")))
+	}
+	if right {
+		b = e.freshStr(st, "trimr", mx)
+		e.define(st, mk(KBool, 0, "str.in_re", b, reTerm("(re.* "+reOfSet(cutset)+")")))
+	}
+	e.define(st, Eq(s, StrConcat(StrConcat(a, r), b)))
+	var ends []*Term
+	if left {
+		ends = append(ends, Not(inSet(mk(KStr, 0, "str.at", r, IntC(0)), cutset)))
+	}
+	if right {
+		ends = append(ends, Not(inSet(mk(KStr, 0, "str.at", r, IntBin("-", StrLen(r), IntC(1))), cutset)))
+	}
+	e.define(st, Or(Eq(r, StrC("")), And(ends...)))
+	return r
+}
+
+// reTerm wraps a regular-expression literal so that it can be an argument of str.in_re.
+func reTerm(src string) *Term {
+	return intern(&Term{K: KInt, Op: "re", Name: src, Max: -1})
+}
+
+// strIndexBV: strings.Index as a signed 64-bit value.
+func (e *Engine) strIndexBV(s, sub *Term) *Term {
+	if s.IsConst && sub.IsConst {
+		return BVC(64, uint64(int64(strings.Index(s.S, sub.S))))
+	}
+	e.needTheory("strings.Index")
+	idx := strIndexOf(s, sub, IntC(0))
+	return Ite(IntBin("<", idx, IntC(0)), BVC(64, ^uint64(0)), Int2BV(idx))
+}
+
+// strLastIndexBV: strings.LastIndex via a defined fresh index.
+func (e *Engine) strLastIndexBV(st *State, s, sub *Term) *Term {
+	if s.IsConst && sub.IsConst {
+		return BVC(64, uint64(int64(strings.LastIndex(s.S, sub.S))))
+	}
+	e.needTheory("strings.LastIndex")
+	i := e.fresh("lastidx", KInt, 0)
+	none := And(Eq(i, IntC(-1)), Not(strContains(s, sub)))
+	n := StrLen(sub)
+	rest := substr(s, IntBin("+", i, IntC(1)), IntBin("-", StrLen(s), IntBin("+", i, IntC(1))))
+	some := And(IntBin("<=", IntC(0), i), Eq(substr(s, i, n), sub), IntBin("<=", IntBin("+", i, n), StrLen(s)), Not(strContains(rest, sub)))
+	e.define(st, Or(none, some))
+	r := Ite(IntBin("<", i, IntC(0)), BVC(64, ^uint64(0)), Int2BV(i))
+	return r
+}
+
+// strLastIndexAnyBV: strings.LastIndexAny(s, chars) for constant chars.
+func (e *Engine) strLastIndexAnyBV(st *State, s *Term, chars string) *Term {
+	if s.IsConst {
+		return BVC(64, uint64(int64(strings.LastIndexAny(s.S, chars))))
+	}
+	e.needTheory("strings.LastIndexAny")
+	i := e.fresh("lastany", KInt, 0)
+	notSet := reTerm("(re.* (re.diff re.allchar " + reOfSet(chars) + "))")
+	none := And(Eq(i, IntC(-1)), mk(KBool, 0, "str.in_re", s, notSet))
+	rest := substr(s, IntBin("+", i, IntC(1)), IntBin("-", StrLen(s), IntBin("+", i, IntC(1))))
+	some := And(IntBin("<=", IntC(0), i), IntBin("<", i, StrLen(s)), inSet(mk(KStr, 0, "str.at", s, i), chars), mk(KBool, 0, "str.in_re", rest, notSet))
+	e.define(st, Or(none, some))
+	return Ite(IntBin("<", i, IntC(0)), BVC(64, ^uint64(0)), Int2BV(i))
+}
+
+// strSplit models strings.Split(s, sep) for a constant, non-empty sep with at most e.splitMax parts.
+func (e *Engine) strSplit(st *State, t types.Type, s *Term, sep string) Value {
+	et := types.Typ[types.String]
+	mkSlice := func(parts []Value, ln *Term) Value {
+		arr := &ArrayV{F: parts}
+		o := newObj(types.NewArray(et, int64(len(parts))))
+		st.heap[o] = arr
+		return &SliceV{Nil: FalseT, Len: ln, Arr: o, Max: len(parts)}
+	}
+	if s.IsConst {
+		ps := strings.Split(s.S, sep)
+		var vs []Value
+		for _, p := range ps {
+			vs = append(vs, StrC(p))
+		}
+		return mkSlice(vs, BVC(64, uint64(len(vs))))
+	}
+	e.needTheory("strings.Split")
+	n := e.splitMax
+	parts := make([]Value, n)
+	rest := s
+	ln := BVC(64, 0)
+	done := FalseT // a previous part was the last one
+	sepT := StrC(sep)
+	for k := 0; k < n; k++ {
+		idx := strIndexOf(rest, sepT, IntC(0))
+		last := IntBin("<", idx, IntC(0))
+		part := Ite(last, rest, substr(rest, IntC(0), idx))
+		part.Max = strMaxOf(s, e.strMax)
+		parts[k] = Ite(done, StrC(""), part)
+		ln = Ite(done, ln, BVC(64, uint64(k+1)))
+		nrest := substr(rest, IntBin("+", idx, IntC(int64(len(sep)))), StrLen(rest))
+		nrest.Max = strMaxOf(s, e.strMax)
+		if k == n-1 {
+			// stated bound: at most n parts
+			e.define(st, Or(done, last))
+			e.bounds["strings.Split yields at most "+fmt.Sprint(n)+" parts"] = true
+		}
+		done = Or(done, last)
+		rest = nrest
+	}
+	ln.Max = int64(n)
+	return mkSlice(parts, ln)
+}
+
+// strJoin models strings.Join(parts, sep).
+func (e *Engine) strJoin(st *State, sl *SliceV, sep *Term) *Term {
+	cells := sliceCells(st, sl)
+	r := StrC("")
+	for i := 0; i < sl.Max && i < len(cells); i++ {
+		p := cells[i].(*Term)
+		var nx *Term
+		if i == 0 {
+			nx = p
+		} else {
+			nx = StrConcat(StrConcat(r, sep), p)
+		}
+		r = Ite(BVBin("<", BVC(64, uint64(i)), sl.Len, true), nx, r)
+	}
+	return r
+}
+
+// strReplaceAll models strings.ReplaceAll for constant, non-empty old (bounded number of occurrences).
+func (e *Engine) strReplaceAll(st *State, s *Term, old, nw string) *Term {
+	if s.IsConst {
+		return StrC(strings.ReplaceAll(s.S, old, nw))
+	}
+	e.needTheory("strings.ReplaceAll")
+	n := int(strMaxOf(s, e.strMax))/len(old) + 1
+	out := StrC("")
+	rest := s
+	done := FalseT
+	oldT, nwT := StrC(old), StrC(nw)
+	for k := 0; k < n; k++ {
+		idx := strIndexOf(rest, oldT, IntC(0))
+		last := IntBin("<", idx, IntC(0))
+		piece := Ite(last, rest, StrConcat(substr(rest, IntC(0), idx), nwT))
+		out = Ite(done, out, StrConcat(out, piece))
+		rest = substr(rest, IntBin("+", idx, IntC(int64(len(old)))), StrLen(rest))
+		done = Or(done, last)
+	}
+	out = Ite(done, out, StrConcat(out, rest))
+	out.Max = strMaxOf(s, e.strMax) * int64(len(nw)+1)
+	return out
+}
+
+func lowerChar(x *Term) *Term {
+	c := mk(KInt, 0, "str.to_code", x)
+	up := And(IntBin("<=", IntC(65), c), IntBin("<=", c, IntC(90)))
+	return Ite(up, mk(KStr, 0, "str.from_code", IntBin("+", c, IntC(32))), x)
+}
+
+func (e *Engine) strToLower(s *Term) *Term {
+	if s.IsConst {
+		return StrC(strings.ToLower(s.S))
+	}
+	e.needTheory("strings.ToLower")
+	n := int(strMaxOf(s, e.strMax))
+	r := StrC("")
+	for i := 0; i < n; i++ {
+		r = StrConcat(r, lowerChar(mk(KStr, 0, "str.at", s, IntC(int64(i)))))
+	}
+	r.Max = int64(n)
+	return r
+}
+
+// UF application (strcase): the same function symbol on both sides of an oracle.
+func (e *Engine) ufStr(name string, arg *Term) *Term {
+	t := mk(KStr, 0, "uf:"+name, arg)
+	if arg.Max >= 0 {
+		t.Max = arg.Max * 2
+	}
+	return t
+}
+
+func (e *Engine) opaqueError(st *State, what string) Value {
+	return e.newError(st, StrC(what))
+}
+
+// optsOf finds the option record the harness attached to a field's Options.
+func (e *Engine) optsOf(st *State, field Value) (*StructV, *Term) {
+	fp, ok := field.(*PtrV)
+	if !ok {
+		panic(unsupported("gogoproto reader: field is %T", field))
+	}
+	// field.Options
+	var res *StructV
+	has := FalseT
+	for _, a := range fp.Alts {
+		if a.O == nil {
+			continue
+		}
+		cell, _ := e.cell(st, a.O)
+		fs := getPath(cell, a.Path).(*StructV)
+		stt := fs.T.Underlying().(*types.Struct)
+		for i := 0; i < stt.NumFields(); i++ {
+			if stt.Field(i).Name() != "Options" {
+				continue
+			}
+			op := fs.F[i].(*PtrV)
+			for _, oa := range op.Alts {
+				if oa.O == nil {
+					continue
+				}
+				rec, ok := e.optRecs[oa.O]
+				if !ok {
+					panic(unsupported("FieldOptions that were not built with vrtFieldOptions"))
+				}
+				if res != nil && res != rec {
+					panic(unsupported("ambiguous FieldOptions"))
+				}
+				res = rec
+				has = Or(has, And(a.G, oa.G))
+			}
+		}
+	}
+	return res, has
+}
+
+func recField(rec *StructV, name string) Value {
+	stt := rec.T.Underlying().(*types.Struct)
+	for i := 0; i < stt.NumFields(); i++ {
+		if stt.Field(i).Name() == name {
+			return rec.F[i]
+		}
+	}
+	panic(unsupported("vrtOpts has no field %s", name))
+}
+
 func (e *Engine) kIntrinsic(fn *ssa.Function, name string, args []Value, st *State) (Value, *State, bool) {
+	str := func(i int) *Term { return args[i].(*Term) }
+	cst := func(i int, what string) string { return constStr(args[i], what) }
+	switch name {
+	case "strings.Contains":
+		return strContains(str(0), str(1)), st, true
+	case "strings.HasPrefix":
+		return strPrefixOf(str(1), str(0)), st, true
+	case "strings.HasSuffix":
+		return strSuffixOf(str(1), str(0)), st, true
+	case "strings.Index":
+		return e.strIndexBV(str(0), str(1)), st, true
+	case "strings.LastIndex":
+		return e.strLastIndexBV(st, str(0), str(1)), st, true
+	case "strings.LastIndexAny":
+		return e.strLastIndexAnyBV(st, str(0), cst(1, "LastIndexAny chars")), st, true
+	case "strings.TrimSpace":
+		return e.strTrim(st, str(0), wsChars, true, true), st, true
+	case "strings.Trim":
+		return e.strTrim(st, str(0), cst(1, "Trim cutset"), true, true), st, true
+	case "strings.TrimPrefix":
+		s, p := str(0), str(1)
+		if s.IsConst && p.IsConst {
+			return StrC(strings.TrimPrefix(s.S, p.S)), st, true
+		}
+		r := Ite(strPrefixOf(p, s), substr(s, StrLen(p), StrLen(s)), s)
+		r.Max = strMaxOf(s, e.strMax)
+		return r, st, true
+	case "strings.Split":
+		return e.strSplit(st, fn.Signature.Results().At(0).Type(), str(0), cst(1, "Split separator")), st, true
+	case "strings.Join":
+		return e.strJoin(st, args[0].(*SliceV), str(1)), st, true
+	case "strings.ReplaceAll":
+		return e.strReplaceAll(st, str(0), cst(1, "ReplaceAll old"), cst(2, "ReplaceAll new")), st, true
+	case "strings.Replace":
+		n := args[3].(*Term)
+		if n.IsConst && int64(n.BV) < 0 {
+			return e.strReplaceAll(st, str(0), cst(1, "Replace old"), cst(2, "Replace new")), st, true
+		}
+		if n.IsConst && n.BV == 1 {
+			return strReplace(str(0), str(1), str(2)), st, true
+		}
+		panic(unsupported("strings.Replace with n=%v", describe(n)))
+	case "strings.ToLower":
+		return e.strToLower(str(0)), st, true
+	case "strconv.Itoa":
+		t := str(0)
+		if t.IsConst {
+			return StrC(fmt.Sprint(sext(t.BV, 64))), st, true
+		}
+		e.needTheory("strconv.Itoa")
+		return mk(KStr, 0, "int.to.str", BV2Int(t)), st, true
+	case "strconv.ParseBool":
+		s := str(0)
+		tv := Or(Eq(s, StrC("1")), Eq(s, StrC("t")), Eq(s, StrC("T")), Eq(s, StrC("TRUE")), Eq(s, StrC("true")), Eq(s, StrC("True")))
+		fv := Or(Eq(s, StrC("0")), Eq(s, StrC("f")), Eq(s, StrC("F")), Eq(s, StrC("FALSE")), Eq(s, StrC("false")), Eq(s, StrC("False")))
+		bad := And(Not(tv), Not(fv))
+		errV := mergeV(st, bad, e.opaqueError(st, "strconv.ParseBool: invalid syntax"), zero(fn.Signature.Results().At(1).Type()))
+		return &TupleV{F: []Value{tv, errV}}, st, true
+	case "github.com/stoewer/go-strcase.SnakeCase":
+		return e.ufStr("snake", str(0)), st, true
+	case "github.com/stoewer/go-strcase.UpperCamelCase":
+		return e.ufStr("ucamel", str(0)), st, true
+	case "github.com/gravitational/trace.Wrap":
+		// Wrap(nil) = nil; Wrap(err) is an error again: the original is returned
+		return args[0], st, true
+	case "github.com/gravitational/trace.Errorf", "github.com/gravitational/trace.BadParameter":
+		return e.opaqueError(st, "trace error"), st, true
+	case "sort.Slice":
+		return nil, e.sortSlice(args[0], args[1], st), true
+	}
+	if strings.HasPrefix(name, "github.com/sirupsen/logrus.") || strings.HasPrefix(name, "(*github.com/sirupsen/logrus.") {
+		e.events = append(e.events, Event{Name: "log:" + fn.Name(), G: e.reach(st)})
+		res := fn.Signature.Results()
+		switch res.Len() {
+		case 0:
+			return nil, st, true
+		case 1:
+			// WithError / WithField return an *Entry: an opaque non-nil pointer
+			if _, ok := res.At(0).Type().Underlying().(*types.Pointer); ok {
+				o := newObj(res.At(0).Type().Underlying().(*types.Pointer).Elem())
+				st.heap[o] = &OpaqueV{Name: "logrus.Entry"}
+				return &PtrV{Alts: []PAlt{{G: TrueT, O: o}}}, st, true
+			}
+		}
+	}
+	if strings.HasPrefix(name, "github.com/gogo/protobuf/gogoproto.") {
+		return e.gogoOption(fn, strings.TrimPrefix(name, "github.com/gogo/protobuf/gogoproto."), args, st)
+	}
+	if v, st2, ok := e.genStub(fn, name, args, st); ok {
+		return v, st2, true
+	}
+	return nil, st, false
+}
+
+// gogoOption answers a gogoproto reader from the vrtOpts record of the field.
+func (e *Engine) gogoOption(fn *ssa.Function, short string, args []Value, st *State) (Value, *State, bool) {
+	boolOpt := map[string]string{"IsEmbed": "Embed", "IsStdTime": "StdTime", "IsStdDuration": "StdDuration"}
+	strOpt := map[string]string{"GetCastType": "CastType", "GetCustomType": "CustomType"}
+	isOpt := map[string]string{"IsCastType": "CastType", "IsCustomType": "CustomType"}
+	absent := map[string]bool{"IsStdDouble": true, "IsStdFloat": true, "IsStdInt64": true, "IsStdUInt64": true, "IsStdInt32": true,
+		"IsStdUInt32": true, "IsStdBool": true, "IsStdString": true, "IsStdBytes": true, "IsWktPtr": true}
+	if absent[short] {
+		e.bounds["wktpointer std wrappers absent (outside D)"] = true
+		return FalseT, st, true
+	}
+	rec, has := e.optsOf(st, args[0])
+	get := func(field string, dflt Value) Value {
+		if rec == nil {
+			return dflt
+		}
+		return mergeV(st, has, recField(rec, field), dflt)
+	}
+	if f, ok := boolOpt[short]; ok {
+		return get(f, FalseT), st, true
+	}
+	if f, ok := strOpt[short]; ok {
+		return get(f, StrC("")), st, true
+	}
+	if f, ok := isOpt[short]; ok {
+		return Not(Eq(get(f, StrC("")).(*Term), StrC(""))), st, true
+	}
+	switch short {
+	case "IsNullable":
+		hasN := get("HasNullable", FalseT).(*Term)
+		return Or(Not(hasN), get("Nullable", TrueT).(*Term)), st, true
+	case "GetJsonTag":
+		// *string: nil when the option is absent
+		hasT := get("HasJSONTag", FalseT).(*Term)
+		o := newObj(types.Typ[types.String])
+		st.heap[o] = get("JSONTag", StrC(""))
+		return &PtrV{Alts: []PAlt{{G: hasT, O: o}, {G: Not(hasT)}}}, st, true
+	}
+	return nil, st, false
+}
+
+// sortSlice: an insertion sort that calls the real less closure symbolically.
+func (e *Engine) sortSlice(x Value, less Value, st *State) *State {
+	iv, ok := x.(*IfaceV)
+	if !ok || len(iv.Alts) != 1 {
+		panic(unsupported("sort.Slice on %T", x))
+	}
+	sl, ok := iv.Alts[0].V.(*SliceV)
+	if !ok {
+		panic(unsupported("sort.Slice on non-slice"))
+	}
+	fv := less.(*FuncV)
+	if !sl.Len.IsConst {
+		panic(unsupported("sort.Slice on a slice of symbolic length (harness: use a fixed length)"))
+	}
+	n := int(sl.Len.BV)
+	if n < 2 {
+		return st
+	}
+	arr := st.heap[sl.Arr].(*ArrayV)
+	swap := func(st *State, i, j int, c *Term) {
+		a := st.heap[sl.Arr].(*ArrayV)
+		na := &ArrayV{F: append([]Value(nil), a.F...)}
+		vi, vj := a.F[sl.Off+i], a.F[sl.Off+j]
+		na.F[sl.Off+i] = mergeV(st, c, vj, vi)
+		na.F[sl.Off+j] = mergeV(st, c, vi, vj)
+		st.heap[sl.Arr] = na
+	}
+	_ = arr
+	// bubble passes with the comparator evaluated on the current contents
+	for pass := 0; pass < n-1; pass++ {
+		for j := 0; j < n-1-pass; j++ {
+			var r Value
+			r, st = e.call(fv.Fn, []Value{BVC(64, uint64(j+1)), BVC(64, uint64(j))}, fv.Binds, st)
+			swap(st, j, j+1, r.(*Term))
+		}
+	}
+	e.stubs["sort.Slice (bubble sort calling the real less)"]++
+	return st
+}
+
+// Fixed universe of the generator stub (mirrored natively by vrtGenerator in zz_verif_rt.go).
+const (
+	uniMsg     = ".p.Msg"
+	uniMapStr  = ".p.T.MEntry" // map<string, string>
+	uniMapInt  = ".p.T.IEntry" // map<int32, string>
+	uniTime    = ".google.protobuf.Timestamp"
+	uniDur     = ".google.protobuf.Duration"
+	typeMsgNum = 11
+	labelRep   = 3
+)
+
+// fieldScalars reads Type, Label and TypeName of a *FieldDescriptorProto.
+func (e *Engine) fieldScalars(st *State, field Value) (typ, label *Term, typeName *Term, hasTN *Term) {
+	fp := field.(*PtrV)
+	if len(fp.Alts) != 1 || fp.Alts[0].O == nil {
+		panic(unsupported("generator stub: ambiguous field pointer"))
+	}
+	cell, _ := e.cell(st, fp.Alts[0].O)
+	fs := getPath(cell, fp.Alts[0].Path).(*StructV)
+	stt := fs.T.Underlying().(*types.Struct)
+	deref := func(v Value, t types.Type) (Value, *Term) {
+		p := v.(*PtrV)
+		var res Value = zero(t)
+		has := FalseT
+		for _, a := range p.Alts {
+			if a.O == nil {
+				continue
+			}
+			c, _ := e.cell(st, a.O)
+			res = mergeV(st, a.G, getPath(c, a.Path), res)
+			has = Or(has, a.G)
+		}
+		return res, has
+	}
+	for i := 0; i < stt.NumFields(); i++ {
+		ft := stt.Field(i).Type()
+		switch stt.Field(i).Name() {
+		case "Type":
+			v, _ := deref(fs.F[i], ft.(*types.Pointer).Elem())
+			typ = v.(*Term)
+		case "Label":
+			v, _ := deref(fs.F[i], ft.(*types.Pointer).Elem())
+			label = v.(*Term)
+		case "TypeName":
+			v, h := deref(fs.F[i], ft.(*types.Pointer).Elem())
+			typeName, hasTN = v.(*Term), h
+		}
+	}
+	return
+}
+
+func (e *Engine) genStub(fn *ssa.Function, name string, args []Value, st *State) (Value, *State, bool) {
+	const gp = "(*github.com/gogo/protobuf/protoc-gen-gogo/generator.Generator)."
+	if !strings.HasPrefix(name, gp) {
+		return nil, st, false
+	}
+	switch strings.TrimPrefix(name, gp) {
+	case "IsMap":
+		typ, label, tn, has := e.fieldScalars(st, args[1])
+		isEntry := And(has, Or(Eq(tn, StrC(uniMapStr)), Eq(tn, StrC(uniMapInt))))
+		e.bounds["generator stub: fixed universe of type names {.p.Msg, .p.T.MEntry, .p.T.IEntry, Timestamp, Duration}"] = true
+		return And(Eq(typ, BVC(32, typeMsgNum)), Eq(label, BVC(32, labelRep)), isEntry), st, true
+	}
 	return nil, st, false
 }
